@@ -45,6 +45,24 @@ FUN_T = ['ff::SWSR_Ptr_Buffer::push/pop/inc/empty/available/reset', 'ff::uMPMC_P
 STUBS_T = ['atomic_long_set := the same store inside an atomic section (CBMC encodes an element store into an array of structs as a whole-array read-modify-write)', 'CBMC standard pointer checks off in the threaded harnesses (dead-object bookkeeping is a pointer-typed shared write); memory safety of the same functions is checked by C30_seq', 'data pointers translated as 64-bit integers (PAY)', 'uSWSR_Ptr_Buffer::push/pop below uMPMC_Ptr_Queue := atomic ring per sub-queue', 'queue set-up by shim code mirroring init without allocation',
            'spin iterations beyond the unwinding bound are cut (stuttering steps); their unwinding assertions are not counted']
 
+def build_stall(ctx):
+    """same translation as build(), with the queue's plain (volatile) shared accesses atomic_long_read/atomic_long_set bound to harness functions that
+    perform the access and then call the scheduling hook: the stalled consumer can be descheduled after any of its shared accesses, not only after its CAS"""
+    shim = ctx.build_ir('c30.cpp', 'cut')
+    return ctx.translate(shim, ROOTS, 'c30s.c', stubs={'_ZN2ffL16atomic_long_readEPNS_10atomic64_tE': 'st_alr', '_ZN2ffL15atomic_long_setEPNS_10atomic64_tEl': 'st_als'},
+                         stubfiles=['common.stubs'], models=['stubs.c', 'ff_alloc.c'])
+
+def stall(ctx, name, ne, nops, with_push, tier, timeout=600):
+    defs = ['NE=%d' % ne, 'NOPS=%d' % nops, 'WITH_PUSH=%d' % with_push, 'NQ=2', 'SZ=2', 'VF_SEQ_LEN=2', 'VF_MA_SEQ_MASK=6', 'VF_NSWSR=16', 'VF_NNODE=24', 'VF_NPTRARR=24']
+    ctx.add(Harness(name, VERIF + '/harness/C30_stall.c', defines=defs, unwind=3, flags=['--paths', 'lifo'],
+                    unwindset=['main.0:%d' % (ne + 1), 'main.1:%d' % (ne + nops + 3), 'main.2:%d' % (ne + nops + 3), 'vf_yield.0:%d' % (nops + 1), '_ZN2ff15uMPMC_Ptr_Queue3popEPPv.1:131', '_ZN2ff15uMPMC_Ptr_Queue4pushEPv.1:131',   # back-off loop after a failed CAS (BACKOFF_MIN = 128)
+                                'x_llvm_2ectpop_2ei32.0:33',
+                               '_ZN2ff15SWSR_Ptr_Buffer5resetEb.0:33', '_ZN2ff15uMPMC_Ptr_Queue4initEmm.0:3', '_ZN2ff10BufferPoolC2Eibm.0:34', '_ZN2ffL12nextPowerOf2Em.0:8'],
+                    timeout=timeout, mem_gb=16, functions=FUN, stubs=STUBS + ['VF_YIELD (ir2c hook after every cmpxchg/atomicrmw/atomic store) := scheduling point of the stalled consumer', 'atomic_long_read / atomic_long_set := the same load / store followed by the scheduling hook'], tier=tier,
+                    bounds='%d elements pushed, then consumer C1 pops and is stalled at one of its atomic steps while consumer C2%s runs 0..%d complete real operations; then the queue is drained; uMPMC_Ptr_Queue init(2,2)' % (
+                        ne, ' / the producer' if with_push else '', nops),
+                    desc='two consumers, stalled-thread schedules: exactly-once, per-consumer ticket order, empty only if justified'))
+
 def seq(ctx, name, layer, k, nq, sz, tier, timeout=600):
     lname = ['uMPMC_Ptr_Queue init(%d,%d)' % (nq, sz), 'uSWSR_Ptr_Buffer(%d)' % sz, 'SWSR_Ptr_Buffer(%d)' % sz][layer]
     defs = ['K=%d' % k, 'LAYER=%d' % layer, 'NQ=%d' % nq, 'SZ=%d' % sz, 'VF_SEQ_LEN=%d' % max(nq, 2)] + (['VF_MA_SEQ_MASK=6'] if layer == 0 else [])
@@ -66,6 +84,9 @@ def run(ctx):
     seq(ctx, 'C30_seq_s_k8', 2, 8, 2, 3, 'thorough', 3000)
     ctx.assumptions += ['allocation never fails; freed memory is not reused (ABA through address reuse outside the claim); fresh memory reads as zero',
                         'sequential consistency; weak-memory effects (x86-TSO store buffering, the WMB() fences) outside the claim']
+    build_stall(ctx)
+    stall(ctx, 'C30_stall_e4_o3', 4, 3, 0, 'quick')
+    stall(ctx, 'C30_stall_e5_o3p', 5, 3, 1, 'thorough', 3000)
     build_thr(ctx)
     thr(ctx, 'C30_thr_swsr_2x2', 0, ['SZ=2', 'NPUSH=2', 'NPOP=2', 'TRIES=1'], 'quick', 'real SWSR_Ptr_Buffer ring of 2 slots: 1 producer x 2 pushes, 1 consumer x 2 pop attempts, all interleavings (SC)')
     thr(ctx, 'C30_thr_mpmc_1_1_2', 1, ['NQ=2', 'P1PUSH=1', 'P2PUSH=1', 'NPOP=2'], 'quick', 'real uMPMC_Ptr_Queue push/pop over 2 sub-queues (atomic rings): 2 producers x 1 push, 1 consumer x 2 pop attempts, all interleavings (SC)')
@@ -75,8 +96,8 @@ def run(ctx):
     ctx.solve(jobs=4)
     for h in ctx.harnesses:                 # spin loops: iterations beyond the bound are stuttering steps, their unwinding assertions are expected to fail
         r = h.result or {}
-        if 'C30_thr' in h.name and r.get('failed'):
-            spin = [f for f in r['failed'] if 'unwinding assertion' in (f.get('desc') or '') and (f.get('function') in SPIN)]
+        if ('C30_thr' in h.name or 'C30_stall' in h.name) and r.get('failed'):
+            spin = [f for f in r['failed'] if 'unwinding assertion' in (f.get('desc') or '') and (f.get('function') in SPIN) and not (('C30_stall' in h.name) and str(f.get('name', '')).endswith('.unwind.1'))]   # (.unwind.1 = the bounded back-off loop, which must complete in the stall harness)
             if spin:
                 r['failed'] = [f for f in r['failed'] if f not in spin]; r['spin_cut'] = len(spin)
                 if not r['failed']: r['status'] = 'pass'; r['discharged'] = r.get('discharged', 0) + len(spin)
@@ -87,6 +108,12 @@ def run(ctx):
 def replay(ctx, cx, h=None):
     c = cx.get('cx', cx)
     exe = ctx.native('c30replay', ['replay/c30_replay.cpp'], flags=('-O1', '-g'), libs=['-L' + REPO + '/runtime/.libs', '-lfix8', '-Wl,-rpath,' + REPO + '/runtime/.libs'])
+    if h is not None and 'C30_stall' in h.name:
+        exe2 = ctx.native('c30stall', ['replay/c30_stall_replay.cpp'], flags=('-O1', '-g'), libs=[])
+        ne = next((int(d[3:]) for d in h.defines if d.startswith('NE=')), 4)
+        n2 = len([a for a in (c.get('cx_nested') or []) if int(a) == 1]) or 3
+        r = sh([exe2, str(ne), str(n2)], cwd=ctx.work)
+        return r.returncode != 0, r.stdout.strip()[-400:].replace('\n', ' | ')
     if h is not None and 'C30_thr' in h.name:
         r = sh([exe, 'thr-mpmc' if 'mpmc' in h.name else 'thr-swsr'], env=dict(os.environ, ASAN_OPTIONS='detect_leaks=0'), cwd=ctx.work)
         return r.returncode != 0, r.stdout.strip()[-400:].replace('\n', ' | ')
